@@ -8,6 +8,7 @@ site, every governing condition is (i) the loop over the scheduler's pools, (ii)
 the very pool being released, (iii) an assertion, or (iv) a guard whose other edge leaves the
 routine without ever reaching a retain / release site (error exits)."""
 from abtverif import canon, cfg, ctrldep
+from abtverif.seq import macros_in as seq_macros
 
 DOC = ("every pool of a scheduler is retained once when the scheduler is created and released once when it is freed: "
        "the retain/release call sites depend only on the pool loop, the NULL test of that pool, and error exits")
@@ -31,3 +32,23 @@ def rule_R9(P, rep):
                    not bad and bool(loops), ("; ".join(bad)) if bad else "not inside the loop over the pools",
                    loc=F.loc(i), site="%s/%s" % (fn, callee))
     rep.need(n >= 2, "only %d retain/release sites" % n)
+    # a scheduler that is about to be freed without its caller's pools gives up its references when it forgets them:
+    # every store of the NULL handle into ABTI_sched::pools[] is preceded on its path by a release of that element
+    m = 0
+    for F in sorted(P.functions.values(), key=lambda f: (f.file, f.line)):
+        dets = []
+        for _b, i, lh, rh in F.stores():
+            ln = F.nodes[F.strip(lh)]
+            if rh is None or ln.get("k") != "idx" or F.field_of(ln["b"]) != ("ABTI_sched", "pools"):
+                continue
+            if not seq_macros(F, rh) & {"ABT_POOL_NULL"}:
+                continue
+            dets.append((i, canon.expr(F, lh)))
+        for i, elem in dets:
+            rels = [c for _b, c in F.calls(RELEASE) if elem in canon.expr(F, F.nodes[c]["a"][0])]
+            ok = any(cfg.dominates(F, c, i) for c in rels)
+            m += 1
+            rep.ob("R9", "%s: %s is released before the scheduler forgets it" % (F.name, elem), ok,
+                   "the handle is overwritten with ABT_POOL_NULL without ABTI_pool_release: the pool keeps counting a scheduler "
+                   "that no longer exists", loc=F.loc(i), site="%s/detach" % F.name)
+    rep.need(m >= 2, "only %d pool detach sites" % m)
